@@ -600,3 +600,36 @@ pub fn unseal_rsa(pkcs1_der: &[u8], blob: &[u8]) -> Option<Vec<u8>> {
     let n = crate::hooks::counter_override_model(n);
     Some(aes_ctr(ek, &n, edk))
 }
+
+/// smallest ephemeral P-384 scalar >= `start` whose ECDH shared x-coordinate with `pk49` starts with a zero byte
+pub fn p384_esk_with_short_shared_secret(pk49: &[u8], start: u32) -> Option<Vec<u8>> {
+    let pk = p384::PublicKey::from_sec1_bytes(pk49).ok()?;
+    for i in start..start + 20_000 {
+        let mut esk = vec![0x11u8; 48];
+        esk[0] = 0x01;
+        esk[44..].copy_from_slice(&i.to_be_bytes());
+        let Ok(sk) = p384::SecretKey::from_slice(&esk) else { continue };
+        let xk = p384::ecdh::diffie_hellman(sk.to_nonzero_scalar(), pk.as_affine());
+        if xk.raw_secret_bytes()[0] == 0 {
+            return Some(esk);
+        }
+    }
+    None
+}
+
+/// ephemeral X25519 secret (raw 32 bytes, before clamping) whose shared secret with the recipient has a zero top byte
+/// (`top`) or a zero first byte
+pub fn x25519_esk_with_short_shared_secret(pk_ed: &[u8; 32], top: bool) -> Option<[u8; 32]> {
+    use curve25519_dalek::edwards::CompressedEdwardsY;
+    let xpk = CompressedEdwardsY(*pk_ed).decompress()?.to_montgomery();
+    for i in 0u32..40_000 {
+        let mut esk = [0x22u8; 32];
+        esk[..4].copy_from_slice(&i.to_le_bytes());
+        let xk = xpk.mul_clamped(curve25519_dalek::scalar::clamp_integer(esk));
+        let b = xk.as_bytes();
+        if (top && b[31] == 0) || (!top && b[0] == 0) {
+            return Some(esk);
+        }
+    }
+    None
+}
